@@ -211,7 +211,13 @@ class FileW:
         return self._f.write(s)          # buffered: reaches the file at close (stuttering step)
 
     def flush(self):
-        return None                      # the data goes out at close, as one write
+        # an explicit flush makes what was written so far visible to every other caller (and
+        # durable across a kill): a yield point of its own.  The shipped code never flushes - a row
+        # reaches the file at close, as one write.
+        if self._mode[0] in "aw" and not self._closed:
+            self._f.flush()
+            _yield("flush_" + self._which, self._path)
+        return None
 
     def close(self):
         if self._closed:
